@@ -30,6 +30,9 @@ def slot_index(prog):
 
 
 def check(env, rep, tier):
+    include(rep, env, tier, "c16", ("C16.3",), "C18.5",
+            "'when the sink never fails the result is success and the output is complete': with a sink that never fails the writer emits "
+            "every link with its separator, whatever the number of links (no counter that wraps or panics)")
     configs = ["default"] if tier == "quick" else ["default", "nodefault", "udp"]
     rep.configs = configs
     for cfg in configs:
